@@ -18,7 +18,7 @@ CHUNK = {"quick": 50, "thorough": 200}
 PROBES = ["unaligned_read_then_observe", "read_at_eof", "read_past_eof", "read0", "read_all", "seek_set", "seek_cur",
           "seek_end", "len_mod4_nonzero", "len_lt_16", "detect_marker_and_size", "detect_size_only",
           "detect_marker_only", "detect_decoy_marker", "negative_rejected", "nonce_zero_byte", "head_unaligned", "first_op_without_seek", "read_without_argument",
-          "constructed_with_default_offset", "stub_at_search_range_limit", "second_view_on_same_file"]
+          "constructed_with_default_offset", "stub_at_search_range_limit", "second_view_on_same_file", "second_decoder_on_another_payload"]
 RULE = ("seeded plans: (a) direct construction over arbitrary plaintext (len 0..4100, every residue mod 4, many <16), "
         "nonce incl. zero bytes, stub 0-900 bytes, 1-12 histories of 1-24 seek/read/tell ops; (b) detection via "
         "from_file on stub|nonce|size|rolling-xor(PE image) with marker+size / size only / marker only variants, decoy "
@@ -75,8 +75,15 @@ def _gen_history(rng, plen, maxops=24):
             off = target if wh == 0 else target - pos if wh == 1 else target - plen
             ops.append(["seek", off, wh])
             pos = target
-        elif r < 0.93:
+        elif r < 0.91:
             ops.append(["tell"])
+        elif r < 0.95:
+            # another decoder over ANOTHER payload (same stub length) is used in between and stops exactly where this view
+            # is positioned next: two decoders in one process share nothing
+            target = rng.choice([0, 4, 8, rng.randint(0, plen + 2)])
+            n = rng.choice([4, 8, 16, 3, 5, -1])
+            ops.append(["other_file", target, n])
+            pos = target + (max(0, min(n, plen - target)) if n >= 0 else max(0, plen - target))
         else:
             # a second view over the same underlying file object (as the extraction code creates them) is used in between:
             # the two share one cursor
@@ -156,7 +163,7 @@ def _nclass(n):
     return "n=-1" if n == -1 else "n=0" if n == 0 else "n%4==0" if n % 4 == 0 else "n%4!=0"
 
 
-def run_history(res: Result, xf, plain: bytes, ops, tag, narrow=None, initial_seek=True, other=None):
+def run_history(res: Result, xf, plain: bytes, ops, tag, narrow=None, initial_seek=True, other=None, other2=None):
     """Drive one history against the byte-slice model. Returns False after the first divergence."""
     plen = len(plain)
     pos = 0
@@ -229,6 +236,25 @@ def run_history(res: Result, xf, plain: bytes, ops, tag, narrow=None, initial_se
                                 f"history {ops[:k + 1]} on plaintext of {plen} bytes: after seek({off},{wh}) tell() == {t}, "
                                 f"expected {pos}", narrow(ops[:k + 1]) if narrow else None)
                     return False
+            elif op[0] == "other_file":
+                res.probes["second_decoder_on_another_payload"] += 1
+                target, n = op[1], op[2]
+                if other2 is not None:
+                    b, plain_b = other2()
+                    b.seek(target)
+                    got = b.read(n)
+                    want = plain_b[target:] if n == -1 else plain_b[target:target + n]
+                    if got != want:
+                        res.violate(("C09", "read", "data", _nclass(n), "second_decoder"),
+                                    f"history {ops[:k + 1]}: a second decoder over another payload read {got[:24].hex()}.., expected {want[:24].hex()}..",
+                                    narrow(ops[:k + 1]) if narrow else None)
+                        return False
+                    adv = len(want)
+                else:
+                    adv = max(0, min(n, plen - target)) if n >= 0 else max(0, plen - target)
+                # this view is then positioned where the other decoder stopped (in its own file)
+                xf.seek(target + adv)
+                pos = target + adv
             elif op[0] == "other_view":
                 if other is None:
                     continue
@@ -318,8 +344,12 @@ def execute(plan: dict) -> Result:
                             "B": plan.get("B", 8192), "histories": [ops_prefix], "property": ID,
                             "format": plan.get("format"), "run_seed": plan.get("run_seed"),
                             "run_index": plan.get("run_index"), "population": plan.get("population")}
+                def other2(no=no, stub=stub, nonce=nonce, n_=len(plain)):
+                    plain_b = builder.prng_bytes(len(stub) * 31 + n_ + 7, n_)
+                    raw_b, _ = builder.xorencode(plain_b, bytes(x ^ 0x5A for x in nonce), stub)
+                    return XorEncodedFile(seam.file(raw_b), nonce_offset=no), plain_b
                 run_history(res, xf, plain, ops, hi, narrow, initial_seek=plan.get("initial_seek", True) if mode == "direct" else hi % 2 == 0,
-                            other=lambda fh=fh, no=no: XorEncodedFile(fh, nonce_offset=no))
+                            other=lambda fh=fh, no=no: XorEncodedFile(fh, nonce_offset=no), other2=other2)
         elif mode == "detect":
             plain = _pe_plain(plan["pe"])
             nonce, stub = unhx(plan["nonce"]), unhx(plan["stub"])
@@ -408,7 +438,7 @@ def _valid(ops, plen):
             pos = op[1] if op[2] == 0 else pos + op[1] if op[2] == 1 else plen + op[1]
             if pos < 0:
                 return False
-        elif op[0] == "other_view":
+        elif op[0] in ("other_view", "other_file"):
             n = op[2]
             pos = op[1] + (len(range(op[1], plen)) if n < 0 else max(0, min(n, plen - op[1])))
     return True
